@@ -139,6 +139,10 @@ theorem size_det (types : List Elem) : ∀ f1, SizeDetE types f1 ∧ SizeDetC ty
                   subst hsz
                   split at h1
                   · simp at h1
+                  split at h2
+                  · simp at h2
+                  split at h1
+                  · simp at h1
                   · rename_i tot1 lvr1 hr1
                     split at h2
                     · simp at h2
@@ -221,6 +225,8 @@ theorem comp_offset_layout (types : List Elem) : ∀ (before : List Elem) (fuel 
         · rename_i sz lv1 he
           split at h
           · simp at h
+          split at h
+          · simp at h
           · rename_i tot lv2 _
             simp only [Except.ok.injEq, Prod.mk.injEq] at h
             exact ⟨f, sz, [], lv1, lv2, he, by simp [h.2]⟩
@@ -245,6 +251,8 @@ theorem comp_offset_layout (types : List Elem) : ∀ (before : List Elem) (fuel 
           split at h
           · simp at h
           · rename_i szx lvx hex
+            split at h
+            · simp at h
             split at h
             · simp at h
             · rename_i tot lvr hr
@@ -321,6 +329,8 @@ theorem fieldLeaves_cons (types : List Elem) (cur : Nat) (f : FieldDef) (rest : 
     · simp at h
     · rename_i szlv hszlv
       obtain ⟨sz, lve⟩ := szlv
+      split at h
+      · simp at h
       split at h
       · simp at h
       · rename_i tl hr
